@@ -245,7 +245,7 @@ def spec_strategy(version):
     else:
         base['cuts'] = st.lists(st.integers(0, 1000), max_size=2)
         base['odd_tail'] = st.sampled_from([0, 0, 0, 1, 8, 37, 63])
-        base['v3'] = files.v3_spec(max_events=0, max_n=2, tids=SC.PROGRAM_TIDS[:2], records_strategy=st.just([]), log_copies=1)
+        base['v3'] = files.v3_spec(max_events=0, max_n=2, tids=SC.PROGRAM_TIDS[:2], records_strategy=st.just([]), log_copies=1, decoy_often=True)
     return st.fixed_dictionaries(base)
 
 
